@@ -17,8 +17,13 @@ PURE = ("usize::saturating_sub", "Ord::min", "Ord::max", "<Vec<T, A> as Deref>::
         "Option<T>::is_some", "Option<T>::is_none", "<EMPTY_ADT_METADATA as Deref>::deref")
 
 
+_INT = r"(?:u8|u16|u32|u64|u128|usize|i8|i16|i32|i64|i128|isize|bool|char)"
+_PURE_RX = re.compile(r"^(?:%s::\w+|<%s as (?:From|TryFrom)<%s>>::(?:from|try_from)|Option<&?T>::(?:copied|cloned|unwrap_or_default|is_some_and)"
+                      r"|HashMap<K, V, S, A>::contains_key|BTreeMap<K, V, A>::get|<\w+ as (?:Clone|Copy)>::clone)$" % (_INT, _INT, _INT))
+
+
 def _pure(key):
-    return key in PURE or key.endswith(("::len", "::as_bytes", "::as_str", "::as_slice", "::clone"))
+    return key in PURE or key.endswith(("::len", "::as_bytes", "::as_str", "::as_slice", "::clone")) or bool(_PURE_RX.match(key))
 
 
 def norm(e):
